@@ -152,11 +152,12 @@ Definition t_edge := [35; 101; 100; 103; 101].
 Definition p_cond : parser (list (glit (list Z))) := opt t_colon (p_list1 p_lit t_comma) [].
 
 Definition p_body : parser (body (list Z)) :=
-  fun l => match skipws l with
+  fun l => let l' := skipws l in
+           match l' with
            | c :: _ =>
                if is_digit c || (c =? 45) then
-                 (b <- p_int ;; tok t_lbrace ;;; e <- p_list0 p_wlit t_semi t_rbrace ;; tok t_rbrace ;;; ret (BAgg b e)) l
-               else (x <- p_list0 p_lit t_comma t_dot ;; ret (BNormal x)) l
+                 (b <- p_int ;; tok t_lbrace ;;; e <- p_list0 p_wlit t_semi t_rbrace ;; tok t_rbrace ;;; ret (BAgg b e)) l'
+               else (x <- p_list0 p_lit t_comma t_dot ;; ret (BNormal x)) l'
            | [] => None
            end.
 
